@@ -60,6 +60,8 @@ type vctx struct {
 	ieee         bool
 	topAct       *act
 	hvers        map[string]Term
+	frame        *frameInfo
+	drift        []string
 }
 
 func (c *vctx) abstracted(what string) {
